@@ -56,10 +56,12 @@ def replay_web(inputs, obl):
                 continue
             k('log::[]')
             q = {'k': 'v', 'n': '1'}
-            resp = asyncio.run(h(_Req(m, q=q, form=q)))
+            # the other channel carries different parameters: a GET handler sees exactly the query, a POST handler exactly the form
+            other = {'page': '2'}
+            resp = asyncio.run(h(_Req(m, q=q if m == 'GET' else other, form=q if m == 'POST' else other)))
             log = list(k('log'))
             if len(log) != 2 or log[0] != name or log[1] != q:
-                problems.append(f"{m} {r}: handler log {log}, expected exactly one call of handler {name!r} with {q}")
+                problems.append(f"{m} {r} (query {q if m == 'GET' else other}, form {q if m == 'POST' else other}): handler log {log}, expected exactly one call of handler {name!r} with {q}")
             if resp.status != 200 or resp.text != f"{name}-ok":
                 problems.append(f"{m} {r}: response {resp.status} {resp.text!r}")
             resp = asyncio.run(h(_Req(m, q={'boom': '1'}, form={'boom': '1'})))
@@ -232,7 +234,7 @@ def ws_send_kinds():
              ('literal-real', '2.5', 2.5), ('computed-real', '1.5+1', 2.5), ('comparison', '3>2', 1), ('int-list', '[1 2 3]', [1, 2, 3]),
              ('computed-list', '1+[1 2]', [2, 3]), ('nested-list', '[1 [2 3] "a"]', [1, [2, 3], 'a']), ('string', '"hi"', 'hi'),
              ('dictionary', ':{["a" 1]}', {'a': 1}), ('dictionary-with-computed-value', 'd:::{};d,"n",,1+2;d', {'n': 3}),
-             ('list-of-computed', '(1+1),(2+2)', [2, 4])]
+             ('list-of-computed', '(1+1),(2+2)', [2, 4]), ('dictionary-with-keys-of-two-kinds', ':{[1 "one"] ["name" "x"]}', {'1': 'one', 'name': 'x'})]
     out = []
     for name, src, want in cases:
         try:
